@@ -361,6 +361,12 @@ theorem index_fits_estimate (t : Tree W) (numEntries : Nat) :
     have h0 : (create (estimatedFileSize t numEntries)).size = 0 := rfl
     omega
 
+/-- the end of the index the driver reports (`indexEnd`, compared with the offset of the string table image
+in the real file on every run) is the arena's size after the allocation sequence, whatever the capacity -/
+theorem index_end_is_arena_size (t : Tree W) (cap : Nat) :
+    (allocateAll (create cap) (buildAllocs t)).size = indexEnd t :=
+  allocateAll_size _ _
+
 /-- any capacity of at least `index_size` bytes will do (the estimate adds the reserve on top) -/
 theorem index_fits_capacity (t : Tree W) (cap : Nat) (h : indexSize t ≤ cap) :
     NeverGrows (create cap) (buildAllocs t) := by
@@ -405,11 +411,11 @@ example :
        ([120], [[97]], [51])] := by
   decide
 
-/-- the bound on a concrete index (one word, one phrase of five syllables): worst-case cost 206 ≤ bound 232, actual end 188, and
+/-- the bound on a concrete index (one word, one phrase of five syllables): worst-case cost 202 ≤ bound 228, actual end 184, and
 without the bound's bytes the very same sequence does grow a file that is too small -/
 example :
     let t : Tree Nat := build id 2 [⟨[0], [1], 5⟩, ⟨[1, 0, 1, 0, 1], [5], 9⟩]
-    allocCost (buildAllocs t) = 206 ∧ indexSize t = 232 ∧ indexEnd t = 188 ∧
+    allocCost (buildAllocs t) = 202 ∧ indexSize t = 228 ∧ indexEnd t = 184 ∧
     ¬ NeverGrows (create 100) (buildAllocs t) := by
   decide
 
